@@ -180,6 +180,12 @@ func runC11(c *Ctx) {
 					pays = append(pays, e)
 				}
 			}
+			if len(pays) == 0 && len(ps.Ret) == 1 {
+				// a further refusal after the guard (e.g. an amount check): effect-free sentinel return
+				if _, isErr := c.sentinelError(ps.Ret[0]); isErr && len(c.pathEffects(ps)) == 0 {
+					continue
+				}
+			}
 			if len(pays) != 1 {
 				bad = append(bad, fmt.Sprintf("accepted path calls the chip mover %d times", len(pays)))
 				continue
